@@ -142,3 +142,6 @@ func verifRunProg(p *verifProgReq, resp map[string]interface{}) {
 }
 
 var _ = strings.Join
+
+// verifValueString renders a Value for comparison (String() of containers walks the real printing code).
+func verifValueString(v Value) string { return v.String() }
